@@ -52,8 +52,10 @@ THEOREMS = [
     "OllamaVerif.C17.F17c_openai_stream_error_swallowed",
     "OllamaVerif.C17.F17d_silent_end_no_final",
 ]
-# Which behaviour the oracle models: 0 = the pinned /repo; bit 0 = proposed_fixes/C17-F17ab.patch applied,
-# bit 1 = proposed_fixes/C17-F17c.patch applied.  One edit when the lead applies a fix (or VERIF_C17_VARIANT).
+# Which behaviour the oracle models (bit set = that proposed fix is in the tree under test):
+#   1 = proposed_fixes/C17-F17ab.patch (streaming tool path + call numbering), 2 = C17-F17c.patch (in /repo),
+#   4 = C17-F17b.patch alone (non-stream call numbering), 8 = C17-F17d.patch (run without done -> error).
+# One edit when the lead applies a fix (or VERIF_C17_VARIANT for a scratch worktree).
 VARIANT = 2  # F17c fixed in /repo (499276761)
 OVERLAY = {"server/zz_verif_c17_test.go": "server/zz_verif_c17_test.go"}
 
